@@ -458,6 +458,7 @@ def _byte_congruence(les, eqs, nes, atoms):
             if off is not None and not off.is_const():
                 cells.setdefault(repr(a[1]), []).append((a, off))
     out = []
+    eqkeys = None
     for group in cells.values():
         if len(group) < 2 or len(group) > 6:
             continue
@@ -469,6 +470,12 @@ def _byte_congruence(les, eqs, nes, atoms):
                     continue
                 # two spellings of one address differ by something the literals tie to a length (`len - 1` vs a header
                 # expression): without a length atom in the difference there is nothing that could make it vanish
+                # (an equality literal that *is* the difference needs no query at all)
+                if eqkeys is None:
+                    eqkeys = {L.key() for L in eqs}
+                if d.key() in eqkeys or (-d).key() in eqkeys:
+                    out.append(Lin.atom(a1) - Lin.atom(a2))
+                    continue
                 if not any(x[0] == "len" for x in atoms_deep(d)):
                     continue
                 # only the literals connected to the two offsets matter (and the sliced query is memoised)
